@@ -144,6 +144,35 @@ def run_case(spec, ctx):
                           f"reference point {np.round(X[j[0]], 5).tolist()} of the domain (parameter row {i}) lies "
                           f"{exc:.4g} outside the box {np.round(bb, 5).tolist()} on axis {j[1]}")
             break
+    # history: the SAME domain object is asked again, one parameter row at a time (last row first, then a
+    # row it has not seen): every answer must enclose the domain at the row it was asked for
+    if k and worst <= t and rg.free_vars(I):
+        singles = [(i, {kk: v[i:i + 1] for kk, v in penv.items()}) for i in range(k - 1, -1, -1)]
+        singles.append((-1, {kk: np.clip(1.0 - v[:1], 0.0, 1.0) for kk, v in penv.items()}))
+        if not specs.ratio_ok_rows(I, {kk: v.tolist() for kk, v in singles[-1][1].items()}):
+            singles.pop()          # the mirrored row would leave (nearly) nothing of a cut / intersection
+        for i, pe1 in singles:
+            p1 = build.params_points({kk: v.tolist() for kk, v in pe1.items()})
+            with ctx.lib("bounding_box(second call, single row)", feature=bfeat):
+                with warnings.catch_warnings():
+                    warnings.simplefilter("ignore")
+                    box1 = D.bounding_box(p1)
+            b1 = torch.as_tensor(box1).detach().double().numpy().reshape(-1)
+            if b1.shape != (2 * dim,) or not np.all(np.isfinite(b1)):
+                ctx.violation("box-form", bfeat + "|second-call", f"bounding_box has shape {b1.shape} for one parameter row")
+                break
+            try:
+                pts = _ref_points(E, pe1, gen, 40)
+            except Exception:      # noqa: BLE001 - the mirrored row may denote an empty set
+                continue
+            X = np.concatenate([pts[v] for v, _ in svars], axis=1)
+            exc = float(max((b1[0::2][None, :] - X).max(), (X - b1[1::2][None, :]).max()))
+            if exc > t:
+                ctx.violation("enclosure", _blame(E, spec) + "|second-call",
+                              f"asked again for parameter row {'%d' % i if i >= 0 else 'new'} alone, the same domain object returns the box "
+                              f"{np.round(b1, 5).tolist()}; a reference point of that row lies {exc:.4g} outside")
+                break
+        classes.append("box-history")
     # library's own samples
     if worst <= t and not rg.has(E, lambda n: n["t"] == "point"):
         from vf import core as _core
@@ -185,6 +214,17 @@ def run_case(spec, ctx):
         # float32 coordinates carry an error of eps*scale, magnified by 2/width
         if np.max(np.abs(out)) > 1 + 1e-4 + 1e-6 * tol["scale"] / max(width, 1e-9):
             ctx.violation("normalization", _blame(E, spec), f"NormalizationLayer maps a domain point to {np.max(np.abs(out)):.5f}")
+        elif len(svars) > 1:
+            # the same points with their variables listed in another order (what `sampler_b * sampler_a` returns)
+            P2 = Points.from_coordinates({v: torch.tensor(pts[v], dtype=torch.float32) for v, _ in svars[::-1]})
+            with ctx.lib("NormalizationLayer.forward(other variable order)", feature=top):
+                res2 = layer(P2)
+            c1, c2 = res.coordinates, res2.coordinates
+            if set(c1) != set(c2) or any(c1[v].shape != c2[v].shape or
+                                         float((c1[v] - c2[v]).abs().max()) > 1e-5 for v in c1):
+                ctx.violation("normalization", "variable-order", "NormalizationLayer maps the same points differently when "
+                              "their variables are listed in another order than domain.space")
+            classes.append("norm-reordered")
     f = specs.features(E)
     rot_generic = False
     for n in rg.walk(E):
@@ -211,3 +251,20 @@ def _blame(E, spec):
         if tname in f and I["t"] != tname:
             lab += "+" + tname
     return lab
+
+
+def extra_cases(tier, seed):
+    """independent products with an external shape parameter, asked for several rows and again row by row."""
+    C = specs.const
+    out = []
+    grow = {"k": "affine", "var": "p", "v0": [0.4], "V1": [[2.0]]}
+    move = {"k": "affine", "var": "p", "v0": [0.0, 1.0], "V1": [[3.0], [-2.0]]}
+    T = {"t": "interval", "var": "t", "lo": C([0.0]), "hi": C([1.0])}
+    for j, A in enumerate([{"t": "circle", "var": "x", "c": C([0.5, -0.5]), "r": grow},
+                           {"t": "circle", "var": "x", "c": move, "r": C([0.7])},
+                           {"t": "par", "var": "x", "o": move, "c1": dict(move, v0=[1.5, 1.0]), "c2": dict(move, v0=[0.0, 2.0])}]):
+        for rows in ([[0.1], [0.9]], [[0.8]]):
+            for E in ({"t": "product", "a": A, "b": T}, A):
+                out.append({"dom": {"E": E, "kind": "product" if E is not A else "interior", "pvars": ["p"], "lattice": False, "far": False},
+                            "prows": {"p": rows}, "rng": seed * 10 + j})
+    return out
